@@ -535,7 +535,7 @@ fn level2(ctx: &mut Ctx) {
     });
 
     // ---- hostile traffic in batches, each followed by the markers ---------------------------------------
-    let total = if ctx.slow_tool { 200 } else { ctx.tier.pick(2_400u64, 50_000u64) };
+    let total = if ctx.slow_tool { 200 } else { ctx.tier.pick(40_000u64, 400_000u64) };
     let batch = 20u64;
     let mut sent = 0u64;
     let mut idx = 0u64;
